@@ -2,6 +2,7 @@
   C06 — time-to-idle: no entry is observable after tti without an access.
 -/
 import MiniMoka.Lemmas.UnsyncLookup
+import MiniMoka.Lemmas.SyncLookup
 
 namespace MiniMoka
 namespace Props
@@ -32,6 +33,24 @@ example : oracleC06 .unsync (some 3)
     [(.ins 1 10, .ok), (.adv 2, .ok), (.has 1, .bool true), (.adv 2, .ok), (.get 1, .val (some 10))]
     = false := by
   decide
+
+/-- C06 on the concurrent cache driven by one thread: for every configuration, history and
+`sync` placement, a key yielded at reading `now` satisfies `now < a + tti`, `a` being the
+reading of its most recent insert, update or successful get — in particular a read that is
+applied late can never move the idle deadline beyond that (and, after the D6 repair, never
+backwards, which is C03's half). -/
+theorem C06_sync (p : Params) (hq : Sync.NoQuirks p) (h : List Op) :
+    oracleC06 .sync p.tti (Sync.trace p h) = true := by
+  unfold oracleC06 Sync.trace
+  refine Sync.lookupOracle_of_coupled hq _ ?_ h {} {} (Sync.init_coupled p)
+  intro g kv hkv
+  simp only [Sync.allChecks, Bool.and_eq_true] at hkv
+  exact hkv.2
+
+example : oracleC06 .sync (some 3) (Sync.trace { tti := some 3 }
+    [.ins 1 10, .adv 2, .get 1, .adv 2, .has 1, .iter, .sync, .adv 1, .get 1, .ins 2 5, .adv 2,
+     .has 2, .adv 1, .has 2, .iter]) = true := by
+  decide +kernel
 
 end Props
 end MiniMoka
